@@ -403,6 +403,8 @@ def rule_uniform_tracer(chk, prog):
 
 
 def run(chk, prog, tier):
+  from rules import c01 as _c01
+  _c01.rule_shared_state(chk, prog, rule='C11.S-shared-arrays-never-updated-in-place')
   rule_uniform_tracer(chk, prog)
   rule_p0(chk, prog)
   rule_p1(chk, prog)
